@@ -52,9 +52,18 @@ func NewCacheKeystoreWrapper(size int) (*Cache, error) {
 
 // Add value by keyID
 func (cache *Cache) Add(keyID string, keyValue []byte) {
+	// The cache zeroes values on eviction, so it has to own their memory:
+	// keep a private copy instead of the caller's slice.
 	cache.mutex.Lock()
-	cache.lru.Add(keyID, keyValue)
+	cache.lru.Add(keyID, copyValue(keyValue))
 	cache.mutex.Unlock()
+}
+
+func copyValue(value []byte) []byte {
+	if value == nil {
+		return nil
+	}
+	return append(make([]byte, 0, len(value)), value...)
 }
 
 // Get value by keyID
@@ -63,7 +72,8 @@ func (cache *Cache) Get(keyID string) ([]byte, bool) {
 	defer cache.mutex.RUnlock()
 	value, ok := cache.lru.Get(keyID)
 	if ok {
-		return value.([]byte), ok
+		// return a copy: cached value may be evicted and zeroed while the caller still uses it
+		return copyValue(value.([]byte)), ok
 	}
 	return nil, ok
 }
